@@ -84,12 +84,14 @@ def cases(ctx):
     n = 600 if ctx.tier == 'quick' else 6000
     types = [gen.TY[t] for t in ('Floor', 'Wall', 'Door', 'Key', 'Box', 'Exit', 'MovingObstacle')]
     yield from tsuite.random_cases(ctx, n, focus=[4, 5, 4, 2], types=types, hi=5, floor_bias=0.35)
+    yield from tsuite.wrap_cases(ctx, n, focus=[4, 5])
 
 
 def run(ctx):
     ctx.rule = ('corpus; full door table 3 statuses x 5 colours x 9 held items x 4 headings x 8 actions; box table; random door/key/box '
                 'states through every function and compositions; non-trivial = the step changed the state or raised')
     tsuite.run_cases(ctx, cases(ctx), oracle)
+    tsuite.run_histories(ctx, 150 if ctx.tier == 'quick' else 1500, oracle)
 
 
 def replay(ctx, case):
